@@ -79,7 +79,9 @@ impl World {
             vec![Key { name: key1_name(), alg: Alg::Sha256, secret: secret(32, 1) }],
             vec![
                 Key { name: key1_name(), alg: Alg::Sha1, secret: secret(20, 2) },
-                Key { name: key2_name(), alg: Alg::Sha256, secret: secret(65, 3) },
+                // configured with capital letters: key names are domain names
+                // and match whatever the case of either side
+                Key { name: wire::wname("Key2.T."), alg: Alg::Sha256, secret: secret(65, 3) },
                 Key { name: long_key_name(), alg: Alg::Sha256, secret: secret(1, 4) },
                 Key { name: wire::wname("k1.t."), alg: Alg::Sha256, secret: secret(64, 5) },
             ],
@@ -761,7 +763,7 @@ fn bases(w: &World, th: bool) -> Vec<(usize, Spec, Tp)> {
     let mut v = Vec::new();
     let ks = 2;
     for (kn, compress) in [(key1_name(), false), (key2_name(), true), (long_key_name(), false)] {
-        let key = w.keysets[ks].iter().find(|k| k.name == kn).unwrap();
+        let key = w.keysets[ks].iter().find(|k| wire::eq_ci(&k.name, &kn)).unwrap();
         for q in [0usize, 1] {
             for edns in [None, Some(1232u16)] {
                 for tp in [Tp::Udp, Tp::Tcp] {
